@@ -83,8 +83,51 @@ func ruleSeqhash(c *Ctx, prop string) {
 	}
 	c.Trusted = []string{"lukechampine.com/blake3.Sum256, encoding/hex", "strings.ToUpper/ReplaceAll/Contains, sort.Strings"}
 	c.floor("TERM-CANON", 11)
+	// the canonical rotation is only canonical if the least-rotation scan is right: re-run C12's shape rules
+	checkBoothScan(c)
 	w := c.W
 	h := w.fn("seqhash", "Hash")
+	if h != nil && prop == "C05" && len(h.Params) == 4 {
+		// the tag and the canonical form describe the DECLARED molecule: a flag parameter that is replaced
+		// by a constant on some path (circular = false for short input, ...) makes them describe another one
+		tbh := newTB(h)
+		eachInstr(h, func(i ssa.Instruction) {
+			ph, ok := i.(*ssa.Phi)
+			if !ok {
+				return
+			}
+			var par *ssa.Parameter
+			var cst *ssa.Const
+			for _, e := range ph.Edges {
+				switch x := e.(type) {
+				case *ssa.Parameter:
+					par = x
+				case *ssa.Const:
+					cst = x
+				}
+			}
+			if par == nil || cst == nil || (par != h.Params[2] && par != h.Params[3]) || len(ph.Edges) != 2 || ph.Comment != par.Name() {
+				return // (a phi without the variable's name is the value of a && / || expression, not an assignment)
+			}
+			for k, e := range ph.Edges {
+				if e == ssa.Value(cst) {
+					pc := pathCond(tbh, h.Blocks[0], ph.Block().Preds[k])
+					c.bad("TERM-FORMAT", "flag "+par.Name()+" is the caller's on every path", ph.Pos(), "the parameter "+par.Name()+" is overwritten with "+cst.Value.ExactString()+" under "+short(pc.String())+": for those inputs the tag letter and the canonical form are those of a molecule the caller did not declare (e.g. a circular molecule hashed and tagged as linear)")
+				}
+			}
+		})
+	}
+	if h != nil {
+		// a strand comparison written as a loop over mirrored positions must cover every position,
+		// the centre of an odd-length sequence included (it decides between AGT and ACT)
+		for _, g := range family(h) {
+			if g != h && loopCompares(g) && g.Name() != "ReverseComplement" {
+				c.useFn(g)
+				st, why := mirrorLoopState(g)
+				c.judge(st, "TERM-CANON", "strand comparison helper "+g.Name()+" compares every position with its mirror", g.Pos(), "for lengths 1..9 every position is compared with the complement of its mirror position", why+": a molecule and its reverse complement can be given different canonical strands")
+			}
+		}
+	}
 	if h == nil || len(h.Params) != 4 {
 		c.missing("TERM-CANON", "seqhash.Hash", "seqhash.Hash(sequence, sequenceType, circular, doubleStranded)")
 		return
@@ -237,6 +280,24 @@ func ruleSeqhash(c *Ctx, prop string) {
 		key := "alphabet test for " + typ + " over the hashed string"
 		switch {
 		case len(mine) == 0:
+			// a black list instead of an alphabet: IndexAny / ContainsAny of the WHOLE string against a set of forbidden letters
+			var black *ssa.Call
+			eachInstr(h, func(i ssa.Instruction) {
+				if cl, ok := i.(*ssa.Call); ok && env.reach[cl.Block()] && (calleeName(cl) == "strings.IndexAny" || calleeName(cl) == "strings.ContainsAny") {
+					etb := newTB(h)
+					etb.Choose = env.choose
+					if _, isC := etb.T(cl.Call.Args[1]).constStr(); isC && isStringType(cl.Call.Args[0].Type()) {
+						if _, isRune := cl.Call.Args[0].(*ssa.Convert); !isRune {
+							black = cl
+						}
+					}
+				}
+			})
+			if black != nil {
+				set, _ := newTB(h).T(black.Call.Args[1]).constStr()
+				c.bad("GUARD", key, black.Pos(), fmt.Sprintf("for %s the sequence is only searched for the forbidden letters %q: every character that is neither allowed nor in that list (digits, '-', '*', blanks, line ends, non-ASCII) passes and is hashed; the property requires rejecting everything outside the type's alphabet", typ, set))
+				continue
+			}
 			c.undecided("GUARD", key, h.Pos(), "no per-letter membership test against a constant alphabet recognised for "+typ)
 			continue
 		case len(mine) > 1:
@@ -638,6 +699,12 @@ func ruleC12(c *Ctx) {
 	c.floor("ORDER-DIR", 2)
 	c.floor("REACHING", 4)
 	checkRotateWindow(c, "TERM")
+	checkBoothScan(c)
+}
+
+// checkBoothScan: the shape rules on the least-rotation scan (ORDER-DIR, BYTEWISE, REACHING). C12 owns
+// them; C04 and C05 re-run them because their canonical form is only canonical if this scan is right.
+func checkBoothScan(c *Ctx) {
 	w := c.W
 	b := w.fn("seqhash", "boothLeastRotation")
 	if b == nil {
@@ -702,6 +769,43 @@ func ruleC12(c *Ctx) {
 	})
 	if n == 0 {
 		c.undecided("ORDER-DIR", "comparisons", b.Pos(), "no byte ordering comparison found")
+	}
+	// BYTEWISE: the main scan leaves only when its counter reaches the end
+	for _, blk := range b.Blocks {
+		for _, ins := range blk.Instrs {
+			ph, ok := ins.(*ssa.Phi)
+			if !ok || !isCounter(ph) || enclosingLoopHeader(blk) != blk {
+				continue
+			}
+			// the outermost counted loop that indexes the string
+			if outer := blk.Idom(); outer != nil && enclosingLoopHeader(outer) != nil {
+				continue
+			}
+			inL := func(x *ssa.BasicBlock) bool { return x == blk || (blk.Dominates(x) && reaches(x, blk)) }
+			scansBytes := false
+			for _, lb := range b.Blocks {
+				if inL(lb) {
+					for _, li := range lb.Instrs {
+						if bo, ok := li.(*ssa.BinOp); ok && (tname(bo.X.Type()) == "uint8" || tname(bo.X.Type()) == "byte") {
+							scansBytes = true
+						}
+					}
+				}
+			}
+			if !scansBytes {
+				continue
+			}
+			for _, lb := range b.Blocks {
+				if lb == blk || !inL(lb) {
+					continue
+				}
+				for _, sx := range lb.Succs {
+					if !inL(sx) {
+						c.bad("ORDER-DIR", "BYTEWISE: scan visits every byte index", lb.Instrs[len(lb.Instrs)-1].Pos(), "the rotation scan can leave its loop before the last character (an exit at "+c.W.pos(lastPos(lb))+"): a later position that would still win the comparison is never looked at, so some inputs are not rotated to their least rotation")
+					}
+				}
+			}
+		}
 	}
 	// BYTEWISE: ranging over a string yields rune starts only
 	eachInstr(b, func(i ssa.Instruction) {
@@ -791,4 +895,13 @@ func phiFedBy(p, src *ssa.Phi, seen map[*ssa.Phi]bool) bool {
 		}
 	}
 	return false
+}
+
+func lastPos(b *ssa.BasicBlock) token.Pos {
+	for k := len(b.Instrs) - 1; k >= 0; k-- {
+		if p := b.Instrs[k].Pos(); p != token.NoPos {
+			return p
+		}
+	}
+	return token.NoPos
 }
